@@ -38,6 +38,8 @@ class Scenario:
     max_attempts: int = 50
     fix_stamp: bool = True
     fix_etag: bool = True
+    init_table: str = "healthy"
+    fix_orphan: bool = False
     fix_gc: bool = True
     fix_gcfail: bool = True
     fix_interrupt: bool = True
@@ -88,11 +90,18 @@ class Execution:
         else:
             from . import fakes3
 
+            import contextlib
+
             self.fake = fakes3.FakeS3(clock=lambda: env.clock.peek_ms() / 1000.0, page_size=1000)
             cond = self.scn.backend == "s3cas"
             path = "t"
-            t0 = fakes3.make_table(self.fake, "t", schema=schema(), conditional=cond)
-            opener = lambda: fakes3.make_table(self.fake, "t", conditional=cond, create=False)  # noqa: E731
+            # the S3 environment and the boto/arrow substitutions stay in place for the whole execution
+            # (actors construct their own handles under the scheduler; nothing global may be held while parked)
+            self._ctx = contextlib.ExitStack()
+            self._ctx.enter_context(fakes3.s3_env(conditional=cond))
+            self._ctx.enter_context(fakes3.patched_boto(self.fake))
+            t0 = create_table("t", schema())
+            opener = lambda: Table("t", create_if_not_exists=False)  # noqa: E731
             def _lock_view(me: str) -> bool:
                 for k_, o in self.fake.objects.items():
                     if ".locks/" in k_:
@@ -114,14 +123,30 @@ class Execution:
         for j in range(1, self.scn.init_snaps + 1):
             t0.append_records([{"id": 960 + j, "k": 0}])
         self.path = path
+        self.opener = opener
+        if self.scn.lock_kind == "none":
+            # every handle constructed from here on (also by create_table inside an actor) gets the lock that grants everyone
+            import datashard.storage_backend as sb
+
+            for klass in (sb.LocalStorageBackend, sb.S3StorageBackend):
+                instrument._patch(klass, "create_lock", lambda self_, path_, timeout=30.0: instrument.GrantAllLock(env))
         st = project.read_state(self.reader())
         self._assign_init_ids(st)
         if self.scn.backend == "local":
             self._make_orphans_and_damage(path, st)
-        # one Table object per handle, created outside the scheduled part
+        if self.scn.init_table == "absent":
+            self._wipe_table()
+            env.ids = instrument.IdMap()
+        elif self.scn.init_table == "hintlost":
+            self.write_hint(None)
+        elif self.scn.init_table == "hintgarbage":
+            self.write_hint(b"\x00\xffnot a pointer")
+        # one Table object per handle, created outside the scheduled part - unless the actor's first
+        # operation is "create" (then the actor constructs its own handle, under the scheduler)
         for a in self.scn.actors:
             h = a.handle or a.name
-            if h not in self.tables:
+            creates = bool(a.prog) and a.prog[0]["t"] == "create"
+            if h not in self.tables and not creates and self.scn.init_table != "absent":
                 instrument._tls.handle = h
                 self.tables[h] = opener()
                 if self.scn.lock_kind == "none":
@@ -130,6 +155,40 @@ class Execution:
         instrument._tls.handle = None
         self.init_obs = self.observe()
         self.init_obs["clock"] = env.clock.rel(env.clock.peek_ms())
+
+    def _wipe_table(self) -> None:
+        if self.fake is not None:
+            for k_ in list(self.fake.objects):
+                del self.fake.objects[k_]
+        else:
+            for name in os.listdir(self.path):
+                full = os.path.join(self.path, name)
+                shutil.rmtree(full) if os.path.isdir(full) else os.remove(full)
+
+    def write_hint(self, content: Optional[bytes]) -> None:
+        """Damage the pointer file from outside the library (None = remove it)."""
+        if self.fake is not None:
+            key = "t/" + project.HINT
+            if content is None:
+                self.fake.objects.pop(key, None)
+            else:
+                self.fake.seed(key, content)
+        else:
+            full = os.path.join(self.path, project.HINT)
+            if content is None:
+                if os.path.exists(full):
+                    os.remove(full)
+            else:
+                with open(full, "wb") as f:
+                    f.write(content)
+
+    def _resolved_uuid(self) -> int:
+        """Identity of the table that is resolvable right now (independent reader; 0 = none)."""
+        st = project.read_state(self.reader())
+        name = project.current_meta_name(st)
+        if name is None and st["metas"]:
+            name = max(st["metas"], key=lambda n: int(project.META_RE.match(n).group(1)))
+        return self.env.ids.uid(st["metas"][name]["table_uuid"]) if name else 0
 
     def reader(self) -> Any:
         if self.fake is not None:
@@ -226,7 +285,7 @@ class Execution:
 
     def _actor_body(self, spec: ActorSpec) -> Callable[[], Any]:
         env = self.env
-        table = self.tables[spec.handle or spec.name]
+        hname = spec.handle or spec.name
         self.outcomes[spec.name] = []
         self.errors[spec.name] = []
 
@@ -240,7 +299,24 @@ class Execution:
                 extra: Dict[str, Any] = {}
                 try:
                     t = op["t"]
-                    if t == "append" and op.get("style") == "explicit":
+                    table = self.tables.get(hname)
+                    if t == "create":
+                        instrument._tls.handle = hname
+                        if self.scn.backend == "local":
+                            from datashard import create_table
+
+                            table = create_table(self.path, schema())
+                        else:
+                            from datashard import create_table
+
+                            table = create_table("t", schema())
+                        if self.scn.lock_kind == "none":
+                            table.metadata_manager.lock_provider = instrument.GrantAllLock(env)
+                        self.tables[hname] = table
+                        extra["uuid"] = self._resolved_uuid()
+                    elif table is None:
+                        raise RuntimeError(f"no table handle: the create/open call of {spec.name} failed")
+                    elif t == "append" and op.get("style") == "explicit":
                         tx = table.new_transaction().begin()
                         for k in range(1, op.get("n", 1) + 1):
                             tx.append_data([{"id": self.scn.idx(spec.name) * 100 + i * 10 + k, "k": 0}], schema())
@@ -367,6 +443,8 @@ class Execution:
         self.env.sched.emit({"k": "Tick", "a": "env", "val": self.env.clock.rel(self.env.clock.peek_ms())})
 
     def close(self) -> None:
+        if getattr(self, "_ctx", None) is not None:
+            self._ctx.close()
         instrument.uninstall()
         shutil.rmtree(self.root, ignore_errors=True)
 
@@ -434,6 +512,8 @@ def spec_prog(scn: Scenario) -> Dict[str, List[Dict[str, Any]]]:
                             "del": ids, "cutoff": int(op["cutoff"]) if op.get("cutoff") is not None else -1})
             elif t == "gc":
                 ops.append({"t": "gc", "grace": int(op.get("grace", 3600000))})
+            elif t == "create":
+                ops.append({"t": "create"})
             elif t == "read":
                 ops.append({"t": "read", "data": op.get("api", "scan") != "count"})
             else:
@@ -459,7 +539,7 @@ def scn_constants(scn: Scenario) -> Dict[str, Any]:
     R = tlc.Raw
     return {"Actors": R("<- ScnActors"), "Role": R("<- ScnRole"), "Idx": R("<- ScnIdx"), "Handle": R("<- ScnHandle"),
             "Prog": R("<- ScnProg"), "Backend": scn.backend, "LockKind": scn.lock_kind, "ClockMode": scn.clock_mode,
-            "MaxClock": 1000000, "MaxAttempts": scn.max_attempts, "InitSnaps": scn.init_snaps,
+            "MaxClock": 1000000, "MaxAttempts": scn.max_attempts, "InitSnaps": scn.init_snaps, "InitTable": scn.init_table, "FixOrphanMeta": scn.fix_orphan,
             "FixStamp": scn.fix_stamp, "FixEtag": scn.fix_etag, "FixGCOrder": scn.fix_gc, "FixGCFail": scn.fix_gcfail, "FixInterrupt": scn.fix_interrupt, "FaultKinds": set(), "FaultBudget": 0, "Grace": scn.grace, "OldFiles": False, "Lease": 60000, "MarkerTimeout": 86400000}
 
 
